@@ -25,6 +25,26 @@ DESCR = {
  "C10-b": ("Conn.Write reads the checklist outside the task loop before selection", "Conn.Write before selection concurrently with a change of the checklist"),
  "C11-a": ("selected-pair notifier clears its running flag before the last handler call", "slow handler still running with an empty queue when the next selection is enqueued"),
  "C11-b": ("a cancelled cycle's late Complete is applied once the next cycle is Gathering", "GatherCandidates, Restart mid-cycle, GatherCandidates again before the old cycle has unwound (unanswered STUN)"),
+ "C09-a": ("srflx socket leaked when the STUN answer arrives after cancellation (early return before the close)", "Restart while a Binding request is in flight; the answer arrives afterwards within the gather timeout"),
+ "C09-b": ("relay onClose skipped when closing the relayed conn returns an error", "relay candidate started normally; relay conn Close returns an error at Restart/Failed/Close"),
+ "C10-a": ("Run returns the context error for a task that is running and completes", "the submitter's context is cancelled between hand-off and task completion"),
+ "C10-b": ("Conn.Write reads the checklist outside the task loop before selection", "Conn.Write before selection concurrently with a change of the checklist"),
+ "C11-a": ("selected-pair notifier clears its running flag before the last handler call (handler overlaps itself)", "slow handler still running with an empty queue when the next selection is enqueued"),
+ "C11-b": ("a cancelled cycle's late Complete is applied once the next cycle is Gathering (nil in the middle of the new cycle)", "GatherCandidates, Restart mid-cycle, GatherCandidates again before the old cycle has unwound"),
+ "C13-a": ("sharedPacketConn.Close without sync.Once: overlapping Close calls on one handle release several references", "≥2 handles; two Close calls on the same handle overlapping within a few instructions"),
+ "C13-b": ("last writer no longer clears an abort whose deadline is not armed yet: socket left blocked forever", "the last in-flight write returns between abortWrite setting the blocked bit and SetWriteDeadline finishing"),
+ "C14-a": ("header and payload written separately: orphan length header when the write buffer fills between them", "WriteBufferSize > 0, stalled peer, buffer full exactly after the header"),
+ "C14-b": ("reader continues after a frame larger than its buffer: packets fabricated from the frame body", "peer sends a frame with length > 8192 on an established connection"),
+ "C15-a": ("alive timer of a claimed provisional connection re-armed when another TCP connection attaches", "first frame before GetConnByUfrag, claim, second connection of the same ufrag, alive duration elapses"),
+ "C15-b": ("FirstStunBindTimeout becomes a per-read idle timeout", "client dribbling bytes more often than the timeout without completing the frame"),
+ "C16-a": ("Marshal writes an IPv4-mapped address as plain IPv4: round trip not Equal", "IPv4-mapped IPv6 connection address"),
+ "C16-b": ("DTLS-in-STUN ACK decoded into the receiver's old slice without truncation", "same attribute variable reused for a shorter message"),
+ "C17-a": ("srflx TCP candidates get the host direction-preference table", "srflx × tcp × tcptype active/passive/so"),
+ "C17-b": ("2·max computed in uint32: pair priority wraps when max(G,D) ≥ 2^31", "a candidate priority ≥ 2147483648"),
+ "C19-a": ("iface+CIDR catch-all no longer outranks an iface-only catch-all", "iface-only rule declared before an iface+CIDR rule of the same interface; lookup inside the CIDR"),
+ "C19-b": ("Networks restriction checked against the external IP's family", "rule with Networks that maps across families (Local/CIDR of one family, External of the other)"),
+ "C20-a": ("controlled side: a parked older nomination overrides a newer one", "nomination N deferred on an invalid pair, N+1 applied on a valid pair, then pair N's check succeeds"),
+ "C20-b": ("controlling side forgets the latest applied value when re-nominating the still-selected pair", "renominate A (N), renominate back to the selected pair B (N+1) before answer N; answers reordered"),
  "C12-a": ("stale 'last written address' fast path after a take-over", "ownership sequence A→X, B→X, A→X with A writing nowhere else in between"),
  "C12-b": ("IP family for the ufrag lookup taken from the raw (IPv4-mapped) source", "first STUN packet of an unseen source arrives in IPv4-mapped form"),
 }
